@@ -55,7 +55,7 @@ pub fn diagnose(dir: &std::path::Path) -> String {
     run().unwrap_or_else(|e| format!("diagnose failed: {e:#}"))
 }
 
-struct Item { kind: &'static str, sexp: String, sw: String, test: String }
+struct Item { kind: String, sexp: String, sw: String, test: String }
 
 /// Worker mode (`--worker DIR debug|release`): build + run one package in one profile, print `name outcome` lines.
 /// A separate process so that a compiler hang or abort cannot take the harness down.
@@ -261,13 +261,17 @@ fn e2e_worker(dir: &str, release: bool) -> i32 {
 /// Run `n` seed-chosen e2e scripts in both profiles (all worker processes side by side); returns protocol lines.
 type E2eKid = (String, String, bool, std::path::PathBuf, std::path::PathBuf, Option<std::process::Child>);
 
-fn spawn_e2e(n: usize, r: &mut Rng) -> Vec<E2eKid> {
+fn choose_e2e(n: usize, r: &mut Rng) -> Vec<(String, std::path::PathBuf, String)> {
     let mut cands = e2e_candidates();
     let mut chosen = vec![];
     while chosen.len() < n && !cands.is_empty() { let i = r.below(cands.len() as u64) as usize; chosen.push(cands.swap_remove(i)); }
+    chosen
+}
+
+fn spawn_e2e(chosen: &[(String, std::path::PathBuf, String)]) -> Vec<E2eKid> {
     let exe = std::env::current_exe().unwrap();
     let mut kids = vec![];
-    for (name, dir, expected) in &chosen {
+    for (name, dir, expected) in chosen {
         for release in [false, true] {
             let d = scratch_dir(&format!("c01e2e-{name}-{}", if release { "r" } else { "d" }));
             let ok = copy_dir(dir, &d).is_ok();
@@ -356,7 +360,8 @@ fn main() {
             let Some((head, sw)) = l.split_once(" @@ ") else { continue };
             let Some((kind, sexp)) = head.split_once(' ') else { continue };
             let pfx = format!("c{k}_");
-            let kind = if kind == "prog-oob" { "prog-oob" } else { "prog" };
+            // corpus kinds: `prog`, `prog-oob`, or `prog-<tag>` for the replay of a specific finding
+            let kind = if kind.starts_with("prog") { kind.to_string() } else { "prog".to_string() };
             items.push(Item { kind, sexp: sexp.replace('@', &pfx), sw: sw.replace("\\n", "\n").replace('@', &pfx) + "\n", test: format!("{pfx}t") });
         }
     }
@@ -365,14 +370,18 @@ fn main() {
         // every program has its own generator state: (seed, k) identifies it
         let mut r = Rng::new(seed.wrapping_mul(0x1_0000_01B3).wrapping_add(k as u64));
         let oob = oob_every > 0 && k % oob_every == oob_every - 1;
-        let p = gen_program(&mut r, k, oob);
-        items.push(Item { kind: if oob { "prog-oob" } else { "prog" }, sexp: p.to_sexp(), sw: p.to_sw(), test: p.test_name() });
+        // every 15th program may contain the shape of finding F4 (`prog-aggsel`)
+        let aggsel = !oob && k % 15 == 7;
+        let p = gen_program(&mut r, k, oob, aggsel);
+        items.push(Item { kind: if oob { "prog-oob".to_string() } else if aggsel { "prog-aggsel".to_string() } else { "prog".to_string() }, sexp: p.to_sexp(), sw: p.to_sw(), test: p.test_name() });
     }
     let t0 = std::time::Instant::now();
-    // e2e scripts: `--e2e N` or `--e2e auto` (3 in the quick tier, 24 in the thorough tier); their worker
+    // e2e scripts: `--e2e N` or `--e2e auto` (3 in the quick tier, 12 in the thorough tier); their worker
     // processes run side by side with the package builds
-    let ne2e = if e2e == "auto" { if std::env::var("VERIF_TIER").as_deref() == Ok("thorough") { 24 } else { 3 } } else { e2e.parse().unwrap_or(0) };
-    let e2e_kids = if ne2e > 0 { spawn_e2e(ne2e, &mut Rng::new(seed ^ 0xE2E)) } else { vec![] };
+    let ne2e = if e2e == "auto" { if std::env::var("VERIF_TIER").as_deref() == Ok("thorough") { 12 } else { 3 } } else { e2e.parse().unwrap_or(0) };
+    let e2e_chosen = choose_e2e(ne2e, &mut Rng::new(seed ^ 0xE2E));
+    // the first three run side by side with the package builds, the rest afterwards in batches of three
+    let e2e_kids = spawn_e2e(&e2e_chosen[..e2e_chosen.len().min(3)]);
     let mut res = BTreeMap::new();
     for (pi, chunk) in items.chunks(pkg_size).enumerate() {
         let refs: Vec<&Item> = chunk.iter().collect();
@@ -387,6 +396,9 @@ fn main() {
     }
     if ne2e > 0 {
         for l in collect_e2e(e2e_kids) { writeln!(out, "{l}").unwrap(); }
+        for chunk in e2e_chosen[e2e_chosen.len().min(3)..].chunks(3) {
+            for l in collect_e2e(spawn_e2e(chunk)) { writeln!(out, "{l}").unwrap(); }
+        }
         eprintln!("sv_c01: {ne2e} e2e scripts done at {:?}", t0.elapsed());
     }
     out.flush().unwrap();
